@@ -80,6 +80,19 @@ CLAIMED = {
        "finding C06-jacoco-branches-without-branch-flag.",
   technique="Lean 4 proof by tree induction over the C01 algebra + CLI differential oracle (sharded vs direct)",
   design="6.C06"),
+ "C19": dict(
+  text=("Proof: for every temp dir, every entry name that passes the enclosure test (relative, never climbing above "
+        "its start) and every renaming of its last component (<stem>_<n>.<ext>), the destination tmp.join(name) resolves "
+        "below the temp dir (C19_enclosed_stays_in_tmp, by induction over path components); closed witnesses that "
+        "un-enclosed and absolute names escape (the zip-slip defect repaired by a fix: commit). Tie: the zip crate's "
+        "enclosed_name vs the model on generated names; sandbox runs of the real binary on hostile archives, symlinked "
+        "directory inputs, hostile recorded source paths and all output types with a full before/after snapshot: every "
+        "change must lie under the output path, the temp dir must be gone, inputs unchanged. Partial: kernel path "
+        "resolution/symlink following and 'grcov writes nowhere else' are checked by the snapshots, not proved."),
+  note=COMMON_NOTE + "Modelled, not verified: lexical `..` resolution stands for the kernel's (no symlinks inside the "
+       "temp dir); tempfile::tempdir cleanup; the zip crate's enclosed_name (tied).",
+  technique="Lean 4 proof over a path-component model + sandbox file-system snapshots around CLI runs",
+  design="6.C19"),
 }
 
 PENDING_REASON = "not claimed in this revision: model and check still being built (see DESIGN.md section 10)"
